@@ -571,3 +571,92 @@ func RetryTagOK(pkt []byte, odcid []byte) bool {
 	tag := gcm.Seal(nil, nonce, nil, pseudo)
 	return hmac.Equal(tag, pkt[len(pkt)-16:])
 }
+
+func putVarint(b []byte, v uint64) []byte {
+	switch {
+	case v < 64:
+		return append(b, byte(v))
+	case v < 16384:
+		return append(b, byte(v>>8)|0x40, byte(v))
+	case v < 1<<30:
+		return append(b, byte(v>>24)|0x80, byte(v>>16), byte(v>>8), byte(v))
+	}
+	return append(b, byte(v>>56)|0xc0, byte(v>>48), byte(v>>40), byte(v>>32), byte(v>>24), byte(v>>16), byte(v>>8), byte(v))
+}
+
+// SealInitial builds a protected Initial packet (attacker's tool: Initial keys are public).
+// fromClient selects the key direction; payload is padded to at least minPayload bytes.
+func SealInitial(version uint32, odcid, dcid, scid, token []byte, pn uint32, payload []byte, fromClient bool, minPayload int) []byte {
+	for len(payload) < minPayload {
+		payload = append(payload, 0)
+	}
+	first := byte(0xc0 | 0x03) // long header, fixed bit, type Initial (v1), 4-byte packet number
+	if version == ObsV2 {
+		first = 0xc0 | 0x10 | 0x03
+	}
+	hdr := []byte{first, byte(version >> 24), byte(version >> 16), byte(version >> 8), byte(version), byte(len(dcid))}
+	hdr = append(hdr, dcid...)
+	hdr = append(hdr, byte(len(scid)))
+	hdr = append(hdr, scid...)
+	hdr = putVarint(hdr, uint64(len(token)))
+	hdr = append(hdr, token...)
+	hdr = putVarint(hdr, uint64(4+len(payload)+16))
+	pnOff := len(hdr)
+	hdr = append(hdr, byte(pn>>24), byte(pn>>16), byte(pn>>8), byte(pn))
+	k := deriveInitial(version, odcid, fromClient)
+	nonce := append([]byte(nil), k.iv...)
+	for i := 0; i < 4; i++ {
+		nonce[11-i] ^= byte(pn >> (8 * i))
+	}
+	ab, _ := aes.NewCipher(k.key)
+	gcm, _ := cipher.NewGCM(ab)
+	pkt := gcm.Seal(append([]byte(nil), hdr...), nonce, payload, hdr)
+	blk, _ := aes.NewCipher(k.hp)
+	mask := make([]byte, 16)
+	blk.Encrypt(mask, pkt[pnOff+4:pnOff+20])
+	pkt[0] ^= mask[0] & 0x0f
+	for i := 0; i < 4; i++ {
+		pkt[pnOff+i] ^= mask[1+i]
+	}
+	return pkt
+}
+
+// VNPacket builds a Version Negotiation packet.
+func VNPacket(dcid, scid []byte, versions []uint32) []byte {
+	b := []byte{0x80 | 0x2a, 0, 0, 0, 0, byte(len(dcid))}
+	b = append(b, dcid...)
+	b = append(b, byte(len(scid)))
+	b = append(b, scid...)
+	for _, v := range versions {
+		b = append(b, byte(v>>24), byte(v>>16), byte(v>>8), byte(v))
+	}
+	return b
+}
+
+// RetryPacket builds a Retry packet; validTag selects a correct or a corrupted integrity tag.
+func RetryPacket(version uint32, odcid, dcid, scid, token []byte, validTag bool) []byte {
+	first := byte(0xc0 | 0x30)
+	if version == ObsV2 {
+		first = 0xc0
+	}
+	b := []byte{first, byte(version >> 24), byte(version >> 16), byte(version >> 8), byte(version), byte(len(dcid))}
+	b = append(b, dcid...)
+	b = append(b, byte(len(scid)))
+	b = append(b, scid...)
+	b = append(b, token...)
+	key := []byte{0xbe, 0x0c, 0x69, 0x0b, 0x9f, 0x66, 0x57, 0x5a, 0x1d, 0x76, 0x6b, 0x54, 0xe3, 0x68, 0xc8, 0x4e}
+	nonce := []byte{0x46, 0x15, 0x99, 0xd3, 0x5d, 0x63, 0x2b, 0xf2, 0x23, 0x98, 0x25, 0xbb}
+	if version == ObsV2 {
+		key = []byte{0x8f, 0xb4, 0xb0, 0x1b, 0x56, 0xac, 0x48, 0xe2, 0x60, 0xfb, 0xcb, 0xce, 0xad, 0x7c, 0xcc, 0x92}
+		nonce = []byte{0xd8, 0x69, 0x69, 0xbc, 0x2d, 0x7c, 0x6d, 0x99, 0x90, 0xef, 0xb0, 0x4a}
+	}
+	pseudo := append([]byte{byte(len(odcid))}, odcid...)
+	pseudo = append(pseudo, b...)
+	blk, _ := aes.NewCipher(key)
+	gcm, _ := cipher.NewGCM(blk)
+	tag := gcm.Seal(nil, nonce, nil, pseudo)
+	if !validTag {
+		tag[3] ^= 0x55
+	}
+	return append(b, tag...)
+}
